@@ -48,6 +48,7 @@ def run(ck):
     c04.r4_direction(ck, rule="C05-R3d")
     c04.r8_who_writes_the_file_state(ck, rule="C05-R3f")
     r6_every_file_saved(ck)
+    r6b_no_entry_leaves_the_file_map(ck)
     r7_refused_rename_puts_content_back(ck)
     r4(ck, par)
     r5(ck, main, cmd_push, seq, par)
@@ -81,6 +82,33 @@ def r6_every_file_saved(ck, rule="C05-R6"):
 
 
 # ---- R1 -----------------------------------------------------------------------------------------
+def r6b_no_entry_leaves_the_file_map(ck, rule="C05-R6b"):
+    """... and the file map only grows: what a patch did to a file (also: that it renamed it away, which is recorded under the old
+    name) stays in the map until it is saved.  No removal operation is applied to a map of file records."""
+    prog = ck.prog
+    REMOVERS = ("retain", "remove", "remove_entry", "clear", "drain", "extract_if", "take", "retain_mut", "into_keys")
+    n_ops = 0
+    bad = []
+    for fn in sorted(prog.fns.values(), key=lambda f: f.id):
+        if fn.crate != "rapidquilt" or "::tests::" in fn.id:
+            continue
+        for bb, t in fn.calls():
+            rp = callee_of(t).get("rpath") or ""
+            a0 = t["argtys"][0] if t["argtys"] else ""
+            if fn.blocks[bb]["cleanup"] or "hash::map::HashMap" not in rp or "modified_file::ModifiedFile<" not in a0:
+                continue
+            n_ops += 1
+            if rp.split("::")[-1] in REMOVERS:
+                bad.append((fn, t, rp.split("::")[-1]))
+    ck.floor(rule, "operations on a map of file records", n_ops, 5)
+    for fn, t, op in bad:
+        ck.violate(rule, "%s on the file map in %s" % (op, fn.id.split("::")[-1]),
+                   "%s applies %s() to the map of file records: an entry that leaves the map is never saved - e.g. the record under the old "
+                   "name of a rename, which is the only trace that the old file has to be deleted" % (fn.id, op), fn.where(t))
+    if not bad:
+        ck.ok(rule, "no entry leaves the file map before it is saved", "%d operations on maps of file records, none of them removes" % n_ops)
+
+
 def _load_key(e, fn=None):
     """The name expression a record was fetched under: the second argument of the get_or_load call inside e (clone / borrow wrappers
     peeled)."""
